@@ -38,7 +38,7 @@ type Config struct {
 }
 
 func DefaultConfig() Config {
-	return Config{Solver: "z3", TimeoutMs: 10000, MaxDecisions: 4000, MaxInstrs: 20_000_000, MaxFork: 64, MaxSymArray: 1100,
+	return Config{Solver: "z3-new", TimeoutMs: 10000, MaxDecisions: 4000, MaxInstrs: 20_000_000, MaxFork: 128, MaxSymArray: 1100,
 		MaxAlloc: 4096, MaxThreads: 8, PreemptBound: -1, Unwind: 256, MaxPaths: 200000, MaxViolations: 3, Workers: 8, FallbackMs: 60000}
 }
 
@@ -260,6 +260,24 @@ func (ex *Explorer) RunHarness(fn *ssa.Function) *HarnessResult {
 	ex.active = 0
 	ex.stop = false
 	ex.start = time.Now()
+	if os.Getenv("SYMGO_PROGRESS") != "" {
+		stopT := make(chan struct{})
+		defer close(stopT)
+		go func() {
+			tk := time.NewTicker(5 * time.Second)
+			defer tk.Stop()
+			for {
+				select {
+				case <-stopT:
+					return
+				case <-tk.C:
+					ex.mu.Lock()
+					fmt.Fprintf(os.Stderr, "[progress %s] t=%.0fs paths=%d queue=%d active=%d ends=%v unknown=%d fallback(sat/unsat/unk)=%d/%d/%d\n", res.Name, time.Since(ex.start).Seconds(), res.Paths, len(ex.queue), ex.active, res.EndKinds, res.Unknowns, ex.fbSat, ex.fbUnsat, ex.fbUnknown)
+					ex.mu.Unlock()
+				}
+			}
+		}()
+	}
 	var wg sync.WaitGroup
 	nw := ex.cfg.Workers
 	if ex.cfg.Concrete != nil {
@@ -428,6 +446,7 @@ func (in *Interp) runPath(fn *ssa.Function, it *WorkItem) *PathResult {
 	in.unwind = in.ex.cfg.Unwind
 	in.mapOrderAll = false
 	in.knownActive = ""
+	in.pcSet = map[*Term]bool{}
 	in.xxMemo = nil
 	in.uncertain = it.Uncertain
 	in.pathStubs = map[string]value{}
